@@ -54,6 +54,66 @@ def parse(ans):
     return api, outs, int(meta.get("N", 0)), int(meta.get("fired", 0))
 
 
+SCRIPT_B = ("BP:tps=1000,max=1000 X:{t}:{c} {q1} {q2} C W C R:{t}:0 C {q3} W C R:{t}:0 C W C D")
+
+
+def written_between_rotations(run, seen, quick):
+    """a block written to the output that the (possibly throwing) first rotation opened: if write_block() returned normally and the
+    rotation that closes that output returns normally too, the output holds that block - complete and valid; it never loses bytes
+    silently because of a failure that belonged to the PREVIOUS output"""
+    scen = [(t, c, big) for t in ("nm", "fd") for c in ("n", "g", "x") for big in ((False, True) if not quick else (False,))]
+    def script(t, c, big):
+        pad = "x" + "41" * (3000 if big else 10)
+        q = lambda i: "Q:cport=%d,qn=%s" % (i, pad)
+        return SCRIPT_B.format(t=t, c=c, q1=q(1), q2=q(2), q3=q(3))
+    base = run_os(["os full " + script(*sc) for sc in scen])
+    lines, metas = [], []
+    for sc, b in zip(scen, base):
+        pb = parse(b)
+        if pb is None:
+            continue
+        for k in range(1, pb[2] + 1):
+            for kind in ("enospc", "short"):
+                for persist in (0, 1):
+                    lines.append("os fault %d %s %d %s" % (k, kind, persist, script(*sc))); metas.append((sc, k, kind, persist))
+    answers = run_os(lines)
+    lean_lines, idx, parsed = [], [], []
+    for (sc, k, kind, persist), a in zip(metas, answers):
+        p = parse(a); parsed.append(p)
+        if p and len(p[1]) >= 2 and p[1][1] not in ("-", "MISSING", "NONE") and not p[1][1].startswith("PART:"):
+            data, err = E.decompress(p[1][1], sc[1])
+            if data:
+                lean_lines.append("cdns " + data.hex()); idx.append(len(parsed) - 1)
+    lean_of = dict(zip(idx, G.run_driver(lean_lines))) if run.driver_ok and lean_lines else {}
+    for j, ((sc, k, kind, persist), p, line) in enumerate(zip(metas, parsed, lines)):
+        tag = "%s/%s" % (sc[0], {"n": "plain", "g": "gzip", "x": "xz"}[sc[1]])
+        if p is None or p[3] == 0:
+            continue
+        run.case(("between", tag, k, kind, persist), True); run.count("block written between two rotations")
+        api, outs = p[0], p[1]
+        # Q Q C W C R1 C Q W C R2 C W C   (14 results): the block written in between = api[8], the rotation closing its output = api[10]
+        if len(api) != 14:
+            continue
+        w_mid, r2 = api[8], api[10]
+        if w_mid.startswith("E:") or r2.startswith("E:") or w_mid == "0":
+            continue                   # reported (the record is still buffered / the loss is known to the caller)
+        # did the first rotation switch outputs at all?  If it threw before switching, the block went to the OLD output, whose
+        # failure has been reported (its data is dropped until the next rotation - by design, and within the letter of C16).
+        # Only a named output tells: its file exists iff it was opened.
+        if sc[0] != "nm" or len(outs) < 2 or outs[1] == "MISSING":
+            continue
+        run.count("block written to the output a throwing rotation had opened")
+        lg = lean_of.get(j)
+        ok = lg is not None and not lg.startswith("S invalid") and lg.count("Q{") == 1
+        if not ok:
+            sig = "fault:silent-loss-in-next-output:" + tag
+            if sig not in seen:
+                seen.add(sig)
+                run.spec_fail.append((sig, line, {"why": "write_block() returned %s and the rotation closing that output returned %s, yet the output does not hold the block" % (w_mid, r2),
+                                                  "the output (compressed form)": (outs[1] if len(outs) > 1 else "")[:200], "validator": (lg or "")[:200],
+                                                  "api results": " ".join(api), "k": k, "kind": kind, "persistent": persist}))
+
+
 def refused_destination(run, seen):
     """the failure is a destination that cannot be opened (invalid descriptor / missing directory): rotate_output throws; whatever
     is attempted meanwhile, a later rotation to a healthy destination succeeds and the next block write produces a complete valid
@@ -210,6 +270,7 @@ def check(run):
                                                   "k": k, "kind": kind, "persistent": persist}))
     run.extra["faults_fired"] = fired_total
     refused_destination(run, seen)
+    written_between_rotations(run, seen, quick)
     run.exhaustive = True
     run.extra["exhaustive_over"] = "fault points k of every scenario"
 
